@@ -341,7 +341,8 @@ func c08Bubble(c c08Case) (res c08Result) {
 	}
 	ln := memnet.NewListener()
 	var rejectNext atomic.Bool
-	srv := kmipserver.NewServer(ln, c08Executor()).WithConnectHook(func(ctx context.Context) (context.Context, error) {
+	exec := c08Executor()
+	srv := kmipserver.NewServer(ln, exec).WithConnectHook(func(ctx context.Context) (context.Context, error) {
 		if rejectNext.Swap(false) {
 			return ctx, errors.New("connection refused by the connect hook")
 		}
@@ -525,6 +526,23 @@ func c08Bubble(c c08Case) (res c08Result) {
 		case "idle":
 			d, _ := time.ParseDuration(s.Kind)
 			time.Sleep(d)
+		case "route":
+			// the application registers one more operation handler while the server is running
+			// (done while nothing else runs: the route table is a plain map, registering during a lookup is not supported)
+			synctest.Wait()
+			routed := make(chan struct{})
+			go func() {
+				exec.Route(kmip.OperationRevoke, kmipserver.HandleFunc(func(ctx context.Context, req *payloads.RevokeRequestPayload) (*payloads.RevokeResponsePayload, error) {
+					return &payloads.RevokeResponsePayload{UniqueIdentifier: req.UniqueIdentifier}, nil
+				}))
+				close(routed)
+			}()
+			synctest.Wait()
+			select {
+			case <-routed:
+			default:
+				return fail("route-registration-blocks", "step %d: registering a handler on the running executor does not return (every connection is idle or inside a handler)\n%s", si, census.Dump("kmip-go/kmipserver"))
+			}
 		case "garbage":
 			if p == nil || ended(p) {
 				continue
@@ -643,6 +661,7 @@ func c08Bubble(c c08Case) (res c08Result) {
 // c08Run executes one case in a fresh bubble; a goroutine still blocked when the bubble ends
 // (leak / deadlock) surfaces as a recovered bubble panic.
 func c08Run(t *testing.T, c c08Case) (sig string, err error) {
+	defer evid.DeadlockWatch("C08", "TestC08Availability", c, "kmip-go/kmipserver")()
 	var res c08Result
 	perr := safely(func() error {
 		synctest.Test(t, func(st *testing.T) {
@@ -702,7 +721,9 @@ func drawC08(rt *rapid.T) c08Case {
 	}
 	for i := 0; i < nsteps; i++ {
 		s := c08Step{Conn: rapid.IntRange(0, nconn-1).Draw(rt, "conn")}
-		switch rapid.IntRange(0, 16).Draw(rt, "op") {
+		switch rapid.IntRange(0, 17).Draw(rt, "op") {
+		case 17:
+			s.Op = "route"
 		case 16:
 			// nothing happens for a while (fake time): connections age and idle
 			s.Op, s.Kind = "idle", rapid.SampledFrom([]string{"6s", "61s", "5m", "2h"}).Draw(rt, "idle")
